@@ -1,2 +1,358 @@
-/-! line-protocol driver for property C11 (stub) -/
-def main (_args : List String) : IO Unit := pure ()
+import MirVerif.Model.BinIORead
+import MirVerif.Gen.C11_Tables
+/-! line-protocol driver for property C11 (binary MIR, raw token stream).
+
+Commands on stdin (one per line):
+* `write` … description lines … `end`  → `bytes <hex>`, `ldpad <offsets>`, `nstr <n>`
+                                           or `error <msg>` (UNSPEC/USE/PHI)
+* `read <hex>`                          → description lines, `end`   or `error <msg>`, `end`
+* `tok uint|int|flt|dbl|ldbl|type <v>` / `tok idx <base> <i>` → `bytes <hex>`
+* `readx <flags> <hex>`                 → as `read`, with the quirks named in flags (g,c,p) off
+* `rtok <hex>`                          → one line describing `readToken`'s result
+* `len <v>`                             → `uint_length int_length`
+The description format is the one printed by harness/c11_harness.c (`dump_modules`). -/
+
+open BinIO
+
+namespace C11Drv
+
+def cfg : Cfg := MirVerif.Gen.C11.cfg
+
+/-- the generated configuration with some of the known reader quirks switched off
+(`g` = hard register name read twice, `c` = insn code bound, `p` = data of type p) -/
+def cfgOff (flags : String) : Cfg :=
+  { cfg with globalDoubleRead := cfg.globalDoubleRead && !flags.contains 'g',
+             codeLimit := if flags.contains 'c' then MirVerif.Gen.C11.insnBound else cfg.codeLimit,
+             dataPtr := cfg.dataPtr || flags.contains 'p' }
+
+def hexDigit (n : Nat) : Char := if n < 10 then Char.ofNat (48 + n) else Char.ofNat (87 + n)
+
+def hexOfBytes (bs : List Nat) : String :=
+  String.ofList (bs.foldr (fun b acc => hexDigit (b / 16 % 16) :: hexDigit (b % 16) :: acc) [])
+
+def hexVal (c : Char) : Option Nat :=
+  let n := c.toNat
+  if 48 ≤ n ∧ n ≤ 57 then some (n - 48)
+  else if 97 ≤ n ∧ n ≤ 102 then some (n - 87)
+  else if 65 ≤ n ∧ n ≤ 70 then some (n - 55)
+  else none
+
+def bytesOfHexChars : List Char → Option (List Nat)
+  | [] => some []
+  | [_] => none
+  | a :: b :: r => do
+    let x ← hexVal a
+    let y ← hexVal b
+    let rest ← bytesOfHexChars r
+    pure ((16 * x + y) :: rest)
+
+def bytesOfHex (s : String) : Option (List Nat) := bytesOfHexChars s.toList
+
+/-- `x<hex>` → bytes -/
+def parseX (s : String) : Option (List Nat) :=
+  match s.toList with
+  | 'x' :: r => bytesOfHexChars r
+  | _ => none
+
+/-- `-` → none, `x<hex>` → some -/
+def parseOptX (s : String) : Option (Option (List Nat)) :=
+  if s = "-" then some none else (parseX s).map some
+
+def showX (n : List Nat) : String := "x" ++ hexOfBytes n
+def showOptX : Option (List Nat) → String
+  | none => "-"
+  | some n => showX n
+
+/-- `lo_hi` → 80-bit value -/
+def parseLd (s : String) : Option Nat :=
+  match s.splitOn "_" with
+  | [a, b] => do let lo ← a.toNat?; let hi ← b.toNat?; pure (lo + 2 ^ 64 * hi)
+  | _ => none
+def showLd (v : Nat) : String := s!"{v % 2 ^ 64}_{v / 2 ^ 64}"
+
+def parseOp (s : String) : Option Op :=
+  match s.splitOn ":" with
+  | ["r", n] => (parseX n).map Op.reg
+  | ["i", v] => v.toNat?.map Op.int
+  | ["u", v] => v.toNat?.map Op.uint
+  | ["f", v] => v.toNat?.map Op.flt
+  | ["d", v] => v.toNat?.map Op.dbl
+  | ["L", v] => (parseLd v).map Op.ldbl
+  | ["R", n] => (parseX n).map Op.ref
+  | ["s", n] => (parseX n).map Op.str
+  | ["l", v] => v.toNat?.map Op.label
+  | ["m", ty, disp, base, index, scale, al, nal] => do
+    let ty ← ty.toNat?
+    let disp ← disp.toNat?
+    let base ← parseOptX base
+    let index ← parseOptX index
+    let scale ← scale.toNat?
+    let al ← parseX al
+    let nal ← parseX nal
+    pure (Op.mem { ty := ty, disp := disp, base := base,
+                   index := index.map (fun i => (i, scale)), alias := al, nonalias := nal })
+  | _ => none
+
+def showOp : Op → String
+  | .reg n => "r:" ++ showX n
+  | .int v => s!"i:{v}"
+  | .uint v => s!"u:{v}"
+  | .flt v => s!"f:{v}"
+  | .dbl v => s!"d:{v}"
+  | .ldbl v => "L:" ++ showLd v
+  | .ref n => "R:" ++ showX n
+  | .str s => "s:" ++ showX s
+  | .label n => s!"l:{n}"
+  | .mem m =>
+    let (idx, sc) := match m.index with
+      | some (i, s) => (showX i, s)
+      | none => ("-", 0)
+    s!"m:{m.ty}:{m.disp}:{showOptX m.base}:{idx}:{sc}:{showX m.alias}:{showX m.nonalias}"
+
+def parseNats (ws : List String) : Option (List Nat) := ws.mapM (·.toNat?)
+
+/-- `<va> <nres> <ty>* <nargs> (<ty> <name> <size>)*` -/
+def parseProto (ws : List String) : Option (Bool × List Nat × List Var) := do
+  match ws with
+  | va :: nres :: r =>
+    let va ← va.toNat?
+    let nres ← nres.toNat?
+    let res ← parseNats (r.take nres)
+    if res.length ≠ nres then none
+    match r.drop nres with
+    | nargs :: r2 =>
+      let nargs ← nargs.toNat?
+      let rec args : Nat → List String → Option (List Var)
+        | 0, [] => some []
+        | n + 1, t :: nm :: sz :: rest => do
+          let t ← t.toNat?
+          let nm ← parseX nm
+          let sz ← sz.toNat?
+          let tl ← args n rest
+          pure ({ ty := t, name := nm, size := sz } :: tl)
+        | _, _ => none
+      let as ← args nargs r2
+      pure (va != 0, res, as)
+    | [] => none
+  | _ => none
+
+def showProto (va : Bool) (res : List Nat) (args : List Var) : String :=
+  let r := String.intercalate " " (res.map toString)
+  let a := String.intercalate " " (args.map (fun v => s!"{v.ty} {showX v.name} {v.size}"))
+  s!"{if va then 1 else 0} {res.length}{if res.isEmpty then "" else " " ++ r} {args.length}{if args.isEmpty then "" else " " ++ a}"
+
+/-- incremental builder for the description lines -/
+structure Build where
+  doneRev : List Module := []
+  mod : Option (Name × List Item) := none       -- items reversed
+  func : Option Func := none                     -- insns/locals/globals reversed
+  err : Option String := none
+
+def Build.addItem (b : Build) (it : Item) : Build :=
+  match b.mod with
+  | some (n, its) => { b with mod := some (n, it :: its) }
+  | none => { b with err := some "item outside module" }
+
+def Build.fail (b : Build) (m : String) : Build := { b with err := some m }
+
+def Build.line (b : Build) (ws : List String) : Build :=
+  if b.err.isSome then b else
+  match ws with
+  | ["module", n] =>
+    match parseX n with
+    | some n => { b with mod := some (n, []) }
+    | none => b.fail "bad module"
+  | ["endmodule"] =>
+    match b.mod with
+    | some (n, its) => { b with doneRev := { name := n, items := its.reverse } :: b.doneRev, mod := none }
+    | none => b.fail "endmodule"
+  | ["import", n] => match parseX n with | some n => b.addItem (.import_ n) | none => b.fail "bad import"
+  | ["export", n] => match parseX n with | some n => b.addItem (.export_ n) | none => b.fail "bad export"
+  | ["forward", n] => match parseX n with | some n => b.addItem (.forward_ n) | none => b.fail "bad forward"
+  | ["bss", nm, len] =>
+    match parseOptX nm, len.toNat? with
+    | some nm, some len => b.addItem (.bss nm len)
+    | _, _ => b.fail "bad bss"
+  | ["ref", nm, it, d] =>
+    match parseOptX nm, parseX it, d.toNat? with
+    | some nm, some it, some d => b.addItem (.ref nm it d)
+    | _, _, _ => b.fail "bad ref"
+  | ["lref", nm, l1, l2, d] =>
+    match parseOptX nm, l1.toNat?, d.toNat? with
+    | some nm, some l1, some d =>
+      if l2 = "-" then b.addItem (.lref nm l1 none d)
+      else match l2.toNat? with
+        | some l2 => b.addItem (.lref nm l1 (some l2) d)
+        | none => b.fail "bad lref"
+    | _, _, _ => b.fail "bad lref"
+  | ["expr", nm, fn] =>
+    match parseOptX nm, parseX fn with
+    | some nm, some fn => b.addItem (.expr nm fn)
+    | _, _ => b.fail "bad expr"
+  | "data" :: nm :: ty :: n :: els =>
+    match parseOptX nm, ty.toNat?, n.toNat? with
+    | some nm, some ty, some n =>
+      let vals := if ty = 10 then els.mapM parseLd else parseNats els
+      match vals with
+      | some vs => if vs.length = n then b.addItem (.data nm ty vs) else b.fail "bad data count"
+      | none => b.fail "bad data el"
+    | _, _, _ => b.fail "bad data"
+  | "proto" :: n :: r =>
+    match parseX n, parseProto r with
+    | some n, some (va, res, args) => b.addItem (.proto n va res args)
+    | _, _ => b.fail "bad proto"
+  | "func" :: n :: r =>
+    match parseX n, parseProto r with
+    | some n, some (va, res, args) =>
+      { b with func := some { name := n, vararg := va, res := res, args := args, locals := [],
+                              globals := [], insns := [] } }
+    | _, _ => b.fail "bad func"
+  | ["local", ty, n] =>
+    match b.func, ty.toNat?, parseX n with
+    | some f, some ty, some n => { b with func := some { f with locals := (ty, n) :: f.locals } }
+    | _, _, _ => b.fail "bad local"
+  | ["global", ty, n, h] =>
+    match b.func, ty.toNat?, parseX n, parseX h with
+    | some f, some ty, some n, some h =>
+      { b with func := some { f with globals := (ty, n, h) :: f.globals } }
+    | _, _, _, _ => b.fail "bad global"
+  | ["label", n] =>
+    match b.func, n.toNat? with
+    | some f, some n => { b with func := some { f with insns := .label n :: f.insns } }
+    | _, _ => b.fail "bad label"
+  | "insn" :: code :: nops :: ops =>
+    match b.func, code.toNat?, nops.toNat?, ops.mapM parseOp with
+    | some f, some code, some nops, some ops =>
+      if ops.length = nops then { b with func := some { f with insns := .op code ops :: f.insns } }
+      else b.fail "bad insn nops"
+    | _, _, _, _ => b.fail ("bad insn " ++ String.intercalate " " ops)
+  | ["endfunc"] =>
+    match b.func with
+    | some f =>
+      let f' : Func := { f with locals := f.locals.reverse, globals := f.globals.reverse,
+                                insns := f.insns.reverse }
+      { (b.addItem (.func f')) with func := none }
+    | none => b.fail "endfunc"
+  | _ => b.fail ("bad line: " ++ String.intercalate " " ws)
+
+def showItem (out : Array String) : Item → Array String
+  | .import_ n => out.push ("import " ++ showX n)
+  | .export_ n => out.push ("export " ++ showX n)
+  | .forward_ n => out.push ("forward " ++ showX n)
+  | .bss nm len => out.push s!"bss {showOptX nm} {len}"
+  | .ref nm it d => out.push s!"ref {showOptX nm} {showX it} {d}"
+  | .lref nm l1 l2 d =>
+    out.push s!"lref {showOptX nm} {l1} {match l2 with | some l => toString l | none => "-"} {d}"
+  | .expr nm fn => out.push s!"expr {showOptX nm} {showX fn}"
+  | .data nm ty els =>
+    let es := els.map (fun v => if ty = 10 then showLd v else toString v)
+    out.push (String.intercalate " " (["data", showOptX nm, toString ty, toString els.length] ++ es))
+  | .proto n va res args => out.push s!"proto {showX n} {showProto va res args}"
+  | .func f =>
+    let out := out.push s!"func {showX f.name} {showProto f.vararg f.res f.args}"
+    let out := f.locals.foldl (fun o v => o.push s!"local {v.1} {showX v.2}") out
+    let out := f.globals.foldl (fun o v => o.push s!"global {v.1} {showX v.2.1} {showX v.2.2}") out
+    let out := f.insns.foldl (fun o i => match i with
+      | .label n => o.push s!"label {n}"
+      | .op code ops =>
+        o.push (String.intercalate " " (["insn", toString code, toString ops.length] ++ ops.map showOp))) out
+    out.push "endfunc"
+
+def showModules (ms : List Module) : Array String :=
+  ms.foldl (fun out m =>
+    let out := out.push ("module " ++ showX m.name)
+    let out := m.items.foldl showItem out
+    out.push "endmodule") #[]
+
+/-- offsets (in the raw stream) of the 6 padding bytes of every long double token -/
+def ldPadOffsets (tab : List Str) (toks : List STok) (start : Nat) : List Nat :=
+  (toks.foldl (fun (acc : Nat × List Nat) t =>
+    let len := (encTok tab t).length
+    match t with
+    | .ldbl _ => (acc.1 + len, (List.range 6).reverse.map (· + acc.1 + 11) ++ acc.2)
+    | _ => (acc.1 + len, acc.2)) (start, [])).2.reverse
+
+def showTok : Tok → String
+  | .uint v => s!"uint {v}"
+  | .int v => s!"int {v}"
+  | .flt v => s!"flt {v}"
+  | .dbl v => s!"dbl {v}"
+  | .ldbl v => "ldbl " ++ showLd v
+  | .reg i => s!"reg {i}"
+  | .name i nb => s!"name {i} {nb}"
+  | .str i => s!"str {i}"
+  | .lab n => s!"lab {n}"
+  | .mem t => s!"mem {t}"
+  | .ty t => s!"type {t}"
+  | .eoi => "eoi"
+  | .eof => "eof"
+
+partial def readDesc (h : IO.FS.Stream) (b : Build) : IO Build := do
+  let line ← h.getLine
+  if line.isEmpty then return b
+  let ws := (line.trimAscii.toString.splitOn " ").filter (· ≠ "")
+  if ws = ["end"] then return b
+  readDesc h (b.line ws)
+
+partial def loop (h : IO.FS.Stream) : IO Unit := do
+  let line ← h.getLine
+  if line.isEmpty then return ()
+  let ws := (line.trimAscii.toString.splitOn " ").filter (· ≠ "")
+  match ws with
+  | ["write"] =>
+    let b ← readDesc h {}
+    match b.err with
+    | some e => IO.println ("error desc " ++ e)
+    | none =>
+      let ms := b.doneRev.reverse
+      if !writable cfg ms then IO.println "error UNSPEC, USE, or PHI is not portable and can not be output"
+      else
+        let toks := toksModules cfg ms
+        let tab := strTable toks
+        let hdr := encHeader cfg tab
+        let bytes := hdr ++ toks.flatMap (encTok tab) ++ [Tag.eofile]
+        IO.println ("bytes " ++ hexOfBytes bytes)
+        IO.println ("ldpad " ++ String.intercalate " " ((ldPadOffsets tab toks hdr.length).map toString))
+        IO.println s!"nstr {tab.length}"
+  | ["read", hex] =>
+    match bytesOfHex hex with
+    | none => IO.println "error bad hex"; IO.println "end"
+    | some bs =>
+      match readModules cfg bs with
+      | .error e => IO.println ("error " ++ e); IO.println "end"
+      | .ok ms =>
+        for l in showModules ms do IO.println l
+        IO.println "end"
+  | ["readx", flags, hex] =>
+    match bytesOfHex hex with
+    | none => IO.println "error bad hex"; IO.println "end"
+    | some bs =>
+      match readModules (cfgOff flags) bs with
+      | .error e => IO.println ("error " ++ e); IO.println "end"
+      | .ok ms =>
+        for l in showModules ms do IO.println l
+        IO.println "end"
+  | ["tok", "uint", v] => IO.println ("bytes " ++ hexOfBytes (writeUint v.toNat!))
+  | ["tok", "int", v] => IO.println ("bytes " ++ hexOfBytes (writeInt v.toNat!))
+  | ["tok", "flt", v] => IO.println ("bytes " ++ hexOfBytes (writeFloat v.toNat!))
+  | ["tok", "dbl", v] => IO.println ("bytes " ++ hexOfBytes (writeDouble v.toNat!))
+  | ["tok", "ldbl", v] => IO.println ("bytes " ++ hexOfBytes (writeLdouble ((parseLd v).getD 0)))
+  | ["tok", "type", v] => IO.println ("bytes " ++ hexOfBytes (writeType v.toNat!))
+  | ["tok", "idx", base, i] => IO.println ("bytes " ++ hexOfBytes (writeIdx base.toNat! i.toNat!))
+  | ["rtok", hex] =>
+    match bytesOfHex hex with
+    | none => IO.println "error bad hex"
+    | some bs =>
+      match readToken bs with
+      | .ok (t, rest) => IO.println s!"{showTok t} rest {rest.length}"
+      | .error e => IO.println ("error " ++ e)
+  | ["len", v] => IO.println s!"{uintLength v.toNat!} {intLength v.toNat!}"
+  | ["cfg"] => IO.println (reprStr cfg)
+  | [] => pure ()
+  | _ => IO.println ("error unknown command " ++ line.trimAscii.toString)
+  (← IO.getStdout).flush
+  loop h
+
+end C11Drv
+
+def main (_args : List String) : IO Unit := do C11Drv.loop (← IO.getStdin)
